@@ -6,8 +6,8 @@
    The arguments isln, lower, printable of the theorems stand for Go library tables: isln = unicode.IsLetter||IsNumber, lower =
    unicode.ToLower, printable = unicode.IsPrint; the hypotheses on them are facts of those tables. *)
 From Coq Require Import List NArith Bool.
-From Verif Require Import lib.Quote model.ExScanner model.ExTemplate proofs.ExScannerBound proofs.QuoteProofs
-  proofs.ExScannerProofs proofs.ExTemplateProofs.
+From Verif Require Import lib.Quote model.ExSyntax model.ExLexer model.ExParser model.ExScanner model.ExTemplate
+  proofs.ExScannerBound proofs.QuoteProofs proofs.ExScannerProofs proofs.ExEmbedded proofs.ExRender proofs.ExTemplateProofs.
 Import ListNotations.
 Open Scope N_scope.
 
@@ -16,7 +16,9 @@ Open Scope N_scope.
    by a name whose lower-cased first path segment is one of the allowed top levels), for EVERY allowed-top-level
    list and EVERY expression evaluator, Evaluator.Template returns exactly unescape_at t ("@@" -> "@", every
    other rune, every other '@' included, stays) and collects no error.  E-mail addresses, mentions, a trailing
-   '@', "@." are instances (Example body_passthrough_witness). *)
+   '@', "@." are instances (Example body_passthrough_witness).  Stated for a non-nil allowed list, which is what
+   Evaluator.Template passes; with a nil list (refactor, HasExpressions) the lossless-scanner theorem
+   c11_identity_rewrite_verbatim applies.  Body text in front of and after an expression: c12_template_embedded. *)
 Theorem c12_body_passthrough : forall isln lower (eval_expr : text -> option text) tops t,
   isln eof = false -> isln r_dot = false -> isln r_at = false ->
   nulfree t -> no_start isln lower (Some tops) t = true ->
@@ -77,3 +79,46 @@ Theorem c12_literal_neighbours_refuted :
       <> Ok (s ++ t, O).
 Proof. exact literal_neighbours_refuted. Qed.
 Print Assumptions c12_literal_neighbours_refuted.
+
+(* Sentence 1 with expressions present ("alone and embedded ... in a template"): in  b1 @( e ) b2  with b1 NUL-free
+   body text without expression start that does not end in an unpaired '@' (at_open: it would pair with the '@' of
+   "@("), e any expression text the scanner closes at that ')' (closed_expr; quoted literals and everything the
+   printer writes glue-free are instances), and b2 ARBITRARY: the output is unescape_at b1, then the value of e
+   (nothing, and one more error, if it is an error), then exactly what b2 evaluates to as a template of its own. *)
+Theorem c12_template_embedded : forall isln lower (eval_expr : ExScanner.text -> option ExScanner.text) tops b1 e b2,
+  isln 0 = false -> isln r_dot = false -> isln r_at = false ->
+  nulfree b1 -> nulfree e -> nulfree b2 ->
+  no_start isln lower (Some tops) b1 = true -> at_open b1 = false -> closed_expr e ->
+  exists o2 n2, template_with isln lower eval_expr tops b2 = Ok (o2, n2) /\
+    template_with isln lower eval_expr tops (b1 ++ r_at :: r_lparen :: e ++ r_rparen :: b2) =
+    Ok (unescape_at b1 ++ (match eval_expr e with Some v => v | None => [] end) ++ o2,
+        match eval_expr e with Some _ => n2 | None => S n2 end).
+Proof. exact template_embedded_stmt. Qed.
+Print Assumptions c12_template_embedded.
+
+(* Sentence 2, embedded: the literal between arbitrary body text b1 (as above) and an arbitrary rest b2 *)
+Theorem c12_literal_embedded : forall isln lower printable ctx b1 s b2,
+  isln 0 = false -> isln r_dot = false -> isln r_at = false -> printable 10 = false ->
+  valid_codepoints s -> nulfree s -> nulfree b1 -> nulfree b2 ->
+  no_start isln lower (Some (map fst ctx)) b1 = true -> at_open b1 = false ->
+  exists o2 n2, template isln lower ctx b2 = Ok (o2, n2) /\
+    template isln lower ctx (b1 ++ [64; 40] ++ quote printable s ++ [41] ++ b2) = Ok (unescape_at b1 ++ s ++ o2, n2).
+Proof. exact literal_embedded_stmt. Qed.
+Print Assumptions c12_literal_embedded.
+
+(* Sentence 2, "wherever the literal stands in an expression", lexer half: followed by ANY text rest (a closing
+   parenthesis, a comma, an operator, a bracket, more literals ...), strconv.Quote(s) is read as ONE TEXT token, the
+   rest is untouched, and the visitor's Unquote of that token is s — provided text_follow_ok s rest: s does not end
+   in a backslash, or no quote occurs in rest.  That restriction is exactly F10b (refuted otherwise:
+   c12_literal_neighbours_refuted); it is also the restriction under which sentence 3 (scanner and parser agree where
+   an expression ends) can hold at all: the scanner closes a literal by backslash parity, the TEXT rule by longest
+   match, and they differ precisely when a literal ends in an escaped backslash and a later quote exists.  The
+   scanner half for quoted literals is quoted_closed / quoted_pair_closed (proofs/ExScannerProofs.v), used by the
+   theorems above; for whole printed expressions: glue-free printed text lexes to the printed tokens
+   (c11_roundtrip_partial). *)
+Theorem c12_literal_one_token : forall printable s rest,
+  printable 10 = false -> valid_codepoints s -> text_follow_ok s rest = true ->
+  lex_one (quote printable s ++ rest) = Some (TEXT, false, quote printable s, rest)
+  /\ text_value (quote printable s) = Some s.
+Proof. exact literal_one_token_stmt. Qed.
+Print Assumptions c12_literal_one_token.
